@@ -1,6 +1,6 @@
-CONSTANTS p = 11
- nq = 1
- qnr2 = 4
+CONSTANTS p = 13
+ nq = 2
+ qnr2 = 0
  big = TRUE
  phases = {"quad", "sextic", "dodecic", "cyc"}
 SPECIFICATION Spec
